@@ -14,7 +14,7 @@ import numpy as np
 
 import core
 
-PROOF_MODULES = ["UnytProofs.C08", "UnytProofs.C08Seq", "UnytProofs.C08Tab", "UnytProofs.C08Tab2", "UnytProofs.C08Tab3", "UnytProofs.C08Tab4"]
+PROOF_MODULES = ["UnytProofs.C08", "UnytProofs.C08Seq", "UnytProofs.C08Tab", "UnytProofs.C08Tab2", "UnytProofs.C08Tab3", "UnytProofs.C08Tab4", "UnytProofs.C08Tab5"]
 
 # --------------------------------------------------------------------------------------
 # the independent reference (also embedded verbatim in every replay file)
